@@ -399,7 +399,11 @@ fn name_class(z: &Zone, n: &Name) -> &'static str {
             "insecure-delegation"
         }
     } else if z.node(n).is_none() {
-        "ent"
+        if refzone::is_wildcard(n) {
+            "ent-asterisk"
+        } else {
+            "ent"
+        }
     } else if refzone::is_wildcard(n) {
         "wildcard"
     } else {
@@ -574,13 +578,53 @@ fn run_query(r: &mut Runner, rt: &tokio::runtime::Runtime, ses: &Session, z: &Zo
     };
     let n3s: Vec<&N3> = so.nsec3.iter().filter(|x| x.zone == z.apex && x.hp == p.hp).map(|x| &x.n3).collect();
     let mut hs = Hasher::new(&p.hp);
+    // does hickory's chain lack the NSEC3 RR of a name a proof about q involves? (then whatever
+    // goes wrong for q is the chain's fault, reported under `chain-mismatch`)
+    let chain_lacks_relevant = {
+        let must: Vec<Name> = denial::nsec3_names(z, p.opt_out);
+        let mut rel: Vec<Name> = Vec::new();
+        let qf = refzone::fold(q);
+        for k in z.apex.len()..=qf.len() {
+            let a = refzone::suffix(&qf, k);
+            rel.push(refzone::wildcard_of(&a));
+            rel.push(a);
+        }
+        rel.iter().any(|n| must.contains(n) && {
+            let h = hs.h(n);
+            !ses.srv.chain.iter().any(|x| x.n3.hash == h)
+        })
+    };
     // 3. soundness seen end to end
     if let (VOut::AcceptedSecure, RespClaim::Denial(claim)) = (&vo, &so.claim) {
         let truth = denial::claim_truth(z, q, t, claim);
         if truth.refutes() {
+            // whose fault? (i) records that are not in N3(Z) (hickory's chain is defective: the
+            // validator was handed a consistent proof of a wrong zone) => server; (ii) otherwise
+            // the validator, with the same discriminators as at H2
+            let genuine = {
+                let reference = denial::nsec3_chain(z, p.opt_out, &mut hs);
+                let loose = denial::nsec3_chain(z, false, &mut hs);
+                so.nsec3.iter().all(|x| x.zone == z.apex && x.hp == p.hp && reference.iter().chain(loose.iter()).any(|m| m.hash == x.n3.hash && m.next == x.n3.next))
+            };
+            let (cause, side) = if !genuine || chain_lacks_relevant {
+                ("chain-lacks-relevant-name".to_string(), "server-chain-defect")
+            } else {
+                let case = crate::H2Case {
+                    q: q.clone(),
+                    t,
+                    claim: claim.clone(),
+                    soa: so.soa,
+                    s: so.nsec3.iter().map(|x| crate::Rec::new(&x.zone, &x.hp, x.n3.clone(), "genuine")).collect(),
+                    limits: crate::LIMIT_CONFIGS[0],
+                    mode: "e2e",
+                };
+                let mut env = crate::Env::new(z, p, 0);
+                let cause = if case.s.is_empty() { None } else { crate::cause_of(&mut env, &case) };
+                (cause.map(|c| c.to_string()).unwrap_or_else(|| format!("other:{}", truth.reason())), "validator")
+            };
             r.report(
                 "e2e-secure-claim-false",
-                &format!("{}|{}|{}|validator", claim.as_str(), truth.reason(), p.class()),
+                &format!("{}|{cause}|{}|{side}", claim.as_str(), p.class()),
                 || e2e_case(z, p, q, t),
                 json!({"reference": e.to_json(), "why": format!("the server's response claims {:?}, which is false of the zone ({}); the validator must not accept it as Secure", claim, truth.reason())}),
                 observed(),
@@ -590,7 +634,6 @@ fn run_query(r: &mut Runner, rt: &tokio::runtime::Runtime, ses: &Session, z: &Zo
         }
     }
     // 4. completeness: is the server's answer the right one, and was it accepted?
-    let fresh_asterisk = refzone::has_asterisk_label(q) && !z.exists(q);
     let (judged, server_ok, claim) = match e.kind {
         Kind::Answer => (true, so.claim == RespClaim::Positive && so.rcode == 0, None),
         Kind::WildcardAnswer => {
@@ -610,9 +653,20 @@ fn run_query(r: &mut Runner, rt: &tokio::runtime::Runtime, ses: &Session, z: &Zo
         r.rep.count(&format!("e2e/dontcare/server-answer-differs-from-refauth(C10)/{}", e.kind.as_str()));
         return;
     }
-    if fresh_asterisk {
-        r.rep.count("e2e/dontcare/asterisk-label-in-nonexistent-qname");
-        return;
+    if let Some(c) = &claim {
+        // opt-out corner: the closest encloser is an empty non-terminal that exists only because
+        // of insecure delegations and therefore (RFC 5155 §7.1) has no NSEC3 RR; a proof relative
+        // to the closest *provable* encloser may then be impossible – nothing to demand
+        if p.opt_out && !matches!(c, Claim::Expansion { .. }) && !z.exists(q) && denial::provable_encloser(z, q, true) != z.closest_encloser(q) {
+            r.rep.count("e2e/dontcare/optout-encloser-without-nsec3");
+            return;
+        }
+        // same corner, the query name itself: an empty non-terminal without NSEC3 RR cannot get
+        // the RFC 5155 §8.5 proof (matching record) at all; RFC 5155 does not say what then
+        if p.opt_out && e.kind == Kind::EntNodata && !denial::nsec3_names(z, true).contains(&refzone::fold(q)) {
+            r.rep.count("e2e/dontcare/optout-ent-without-nsec3");
+            return;
+        }
     }
     r.rep.count("e2e/judged_complete");
     r.rep.count(&format!("e2e/judged_complete/{}", e.kind.as_str()));
@@ -630,6 +684,7 @@ fn run_query(r: &mut Runner, rt: &tokio::runtime::Runtime, ses: &Session, z: &Zo
     }
     // classify
     let (feature, side) = match &claim {
+        Some(_) if chain_lacks_relevant => ("chain-lacks-relevant-name".to_string(), "server-chain-defect"),
         None => {
             // positive answer: no denial needed; genuine NSEC3 RRs in the authority section must
             // not turn a validly signed answer into a failure
@@ -638,7 +693,9 @@ fn run_query(r: &mut Runner, rt: &tokio::runtime::Runtime, ses: &Session, z: &Zo
         Some(c) => {
             let roles = denial::roles(z, q, t, c, p.opt_out, &n3s, &mut hs);
             let mut f = format!("{}:missing={}", roles.sub, roles.missing());
-            if roles.sub != "direct" {
+            if !roles.complete() {
+                // server side: what is missing says it all
+            } else if roles.sub != "direct" {
                 f.push_str(if roles.ce == z.apex { ",ce=apex" } else { ",ce=inner" });
                 f.push_str(if q.len() - roles.ce.len() > 1 { ",depth=2+" } else { ",depth=1" });
             } else {
